@@ -266,11 +266,26 @@ pub fn check_case(case: &Case, ctx: &mut Ctx) {
                     let tn = squash(tn);
                     let alloc_root = squash(spec.alloc.as_deref().unwrap_or("::std"));
                     let is_box = ty_str(&gf.ty).starts_with(&format!("{alloc_root}::boxed::Box<"));
-                    let written_box = tn.starts_with("Box<")
+                    let _written_box = tn.starts_with("Box<")
                         || tn.starts_with("::std::boxed::Box<")
                         || tn.starts_with("boxed::Box<");
                     let mentions_box = tn.contains("Box<");
-                    if written_box && !compact && !is_box {
+                    // the generator's documented rule (WF4): a field is boxed iff its written type mentions a Box
+                    // anywhere (the registry erased it; a cycle may depend on it), unless it is a compact field
+                    let reg_compact = {
+                        let mut id = rf.ty.id;
+                        loop {
+                            match registry.resolve(id) {
+                                Some(t) if crate::shape::is_prelude_cow(t) => match t.type_params.first().and_then(|p| p.ty) {
+                                    Some(inner) => id = inner.id,
+                                    None => break false,
+                                },
+                                Some(t) => break matches!(t.type_def, TypeDef::Compact(_)),
+                                None => break false,
+                            }
+                        }
+                    };
+                    if mentions_box && !compact && !reg_compact && !is_box {
                         ctx.violation(
                             "C18/box-marker/missing",
                             format!("{what}: field {i} is written `{tn}` in the list but the standalone struct has `{}`", ty_str(&gf.ty)),
@@ -423,7 +438,23 @@ pub fn run(tier: &str, seed: u64) -> i32 {
         wall: Duration::from_secs(if thorough { 900 } else { 150 }),
         max_states: 5_000_000,
     };
+    let budget = Budget { max_depth: 2, ..budget };
+    use crate::spm::Ty;
+    fn mentions_box(t: &Ty) -> bool {
+        match t {
+            Ty::Box(_) => true,
+            Ty::Named(_, a) | Ty::Tuple(a) => a.iter().any(mentions_box),
+            Ty::Vec(x) | Ty::VecDeque(x) | Ty::Cow(x) | Ty::BTreeSet(x) | Ty::BinaryHeap(x) | Ty::Array(x, _) | Ty::Option(x) | Ty::Range(x) | Ty::RangeInclusive(x) | Ty::Compact(x) => mentions_box(x),
+            Ty::Result(a, b_) | Ty::BTreeMap(a, b_) => mentions_box(a) || mentions_box(b_),
+            _ => false,
+        }
+    }
     report.add(explore(&d, &budget, seed, |s, ctx| {
+        // quick tier: of the twice-wrapped types only those that mention a Box (the Box marker of a field whose
+        // Box sits inside a tuple, an array, an Option ...)
+        if !thorough && s.depth >= 2 && !mentions_box(&s.expr) {
+            return;
+        }
         for (prog, pos) in arms_programs(&s.expr) {
             for (sname, spec) in &sets {
                 check_case(
